@@ -155,6 +155,12 @@ class Types:
         return self._ids[key]
 
     def norm(self, key):
+        # byte and rune are aliases: one identity for `[]byte` and `[]uint8` (go/types prints
+        # whichever spelling the source used)
+        if 'byte' in key or 'rune' in key:
+            import re
+            key = re.sub(r'(?<![A-Za-z0-9_.])byte(?![A-Za-z0-9_])', 'uint8', key)
+            key = re.sub(r'(?<![A-Za-z0-9_.])rune(?![A-Za-z0-9_])', 'int32', key)
         return key
 
     def canon(self, key):
